@@ -224,6 +224,7 @@ func main() {
 		{"instr", watgen.InstrFamily(), mc.Pick(r, cover, styles)},
 		{"ctrl", watgen.CtrlFamily(ctrlDepth, watgen.CtrlOpts{}), mc.Pick(r, cover, styles)},
 		{"ctrl-exec", watgen.CtrlFamily(mc.Pick(r, 1, 2), watgen.CtrlOpts{Exec: true}), cover},
+		{"ctrl-shadow", watgen.CtrlShadowFamily(ctrlDepth), cover},
 	}
 	if !thorough {
 		// quick: the complete style product on the 110 simplest mod items, the cover set on all
@@ -539,6 +540,46 @@ func main() {
 	})
 	for _, c := range cands {
 		r.Report(c.key, c.what, c.replay)
+	}
+
+	// label shadowing must really occur in the text: a name declared by two nested constructs and
+	// used by a branch
+	{
+		n := 0
+		for i := range items {
+			if items[i].Family != "ctrl-shadow" {
+				continue
+			}
+			decl, ref := map[string]int{}, map[string]bool{}
+			for _, line := range strings.Split(textOf(&items[i], watgen.StyleFromBits(0)), "\n") {
+				f := strings.Fields(line)
+				if len(f) < 2 {
+					continue
+				}
+				switch f[0] {
+				case "block", "loop", "if":
+					if strings.HasPrefix(f[1], "$") {
+						decl[f[1]]++
+					}
+				case "br", "br_if", "br_table":
+					for _, w := range f[1:] {
+						if strings.HasPrefix(w, "$") {
+							ref[w] = true
+						}
+					}
+				}
+			}
+			for name := range ref {
+				if decl[name] >= 2 {
+					n++
+					break
+				}
+			}
+		}
+		r.Extra("shadowed_label_references", n)
+		if n < 200 {
+			r.HarnessError("vacuous: only %d ctrl-shadow items branch by name to a label declared twice", n)
+		}
 	}
 
 	// vacuity guards
